@@ -53,6 +53,7 @@ struct Config {
   uint64_t hold_ns{2000};
   uint64_t hang_s{20};
   bool arbitrary_versions{false};
+  bool coupling{false};  // optimistic lock coupling: verify lock i while holding a grant on lock j > i
   uint32_t weights[kOpCount]{};
 };
 Config g_cfg;
@@ -661,8 +662,10 @@ class Engine
     }
   }
 
+  // held != nullptr (only with op == kOpOptRead): optimistic lock coupling - the version of lock b is read, then a grant
+  // on the higher lock *held is taken, and the version of b is verified while that grant is held
   void
-  OpOptimistic(Box &b, Rng &r, int op)
+  OpOptimistic(Box &b, Rng &r, int op, Box *held = nullptr)
   {
     if constexpr (T::kOpt) {
       OptWindow w{};
@@ -691,6 +694,20 @@ class Engine
       w.rel2 = b.x_rel.load(kMo);
       w.b2 = b.x_begun.load(kMo);
       if (op == kOpOptRead) {
+        SG hs;
+        XG hx;
+        const bool held_x = held != nullptr && r.Chance(1, 2);
+        if (held != nullptr) {
+          if (held_x) {
+            hx = AcqX(*held, kOpNested);
+          } else {
+            hs = AcqS(*held, kOpNested);
+          }
+          t_chaos.cur_op = op;
+          w.rel2 = b.x_rel.load(kMo);
+          w.b2 = b.x_begun.load(kMo);
+          if (t_mon.stats) t_mon.stats->Add("opt_verifications_while_holding_a_higher_lock");
+        }
         bool ok = false;
         {
           LibCall lc{kPhCheck, b.index, op};
@@ -699,6 +716,13 @@ class Engine
         w.d3 = b.x_done.load(kMo);
         w.b3 = b.x_begun.load(kMo);
         JudgeCheck(b, w, ok, v0, og.GetVersion(), "VerifyVersion");
+        if (held != nullptr) {
+          if (held_x) {
+            SectionX(*held, hx, r, kOpNested, "LockX");
+          } else {
+            SectionS(*held, hs, r, kOpNested);
+          }
+        }
       } else if (op == kOpTryS) {
         SG g;
         {
@@ -920,7 +944,9 @@ class Engine
         const int i = static_cast<int>(r.Below(g_cfg.locks - 1));
         const int j = i + 1 + static_cast<int>(r.Below(g_cfg.locks - 1 - i));
         const int inner = PickOp(r, false);
-        const auto outer_mode = r.Below(3);
+        // with lock coupling in the program no thread may wait for a higher lock while it holds X on a lower one
+        // (VerifyVersion legitimately waits for an exclusive holder): the outer grant is S or SIX then
+        const auto outer_mode = r.Below(g_cfg.coupling ? 2 : 3);
         t_chaos.cur_op = kOpNested;
         auto &bo = boxes_[i];
         if (outer_mode == 0) {
@@ -940,6 +966,12 @@ class Engine
           SectionX(bo, g, r, kOpNested, "LockX");
         }
         stats.Add("ops_nested");
+      } else if (T::kOpt && g_cfg.coupling && g_cfg.locks > 1 && r.Chance(1, 5)) {
+        const int i = static_cast<int>(r.Below(g_cfg.locks - 1));
+        const int j = i + 1 + static_cast<int>(r.Below(g_cfg.locks - 1 - i));
+        t_chaos.cur_op = kOpOptRead;
+        OpOptimistic(boxes_[i], r, kOpOptRead, &boxes_[j]);
+        stats.Add("ops_coupling");
       } else {
         auto &b = boxes_[r.Below(g_cfg.locks)];
         SimpleOp(b, r, op);
@@ -1407,6 +1439,7 @@ main(int argc, char **argv)
   g_cfg.hold_ns = a.U("hold", 2000);
   g_cfg.hang_s = a.U("hang_s", 20);
   g_cfg.arbitrary_versions = a.U("arbver", 0) != 0;
+  g_cfg.coupling = a.U("coupling", 0) != 0;
   if (a.U("preempt", 0) != 0) PreempterStart(g_cfg.seed, 30, 400, 10, 200);
   if (g_cfg.threads < 1 || g_cfg.threads > kMaxThreads || g_cfg.locks < 1 || g_cfg.locks > kMaxLocks) {
     fprintf(stderr, "bad threads/locks\n");
